@@ -36,7 +36,7 @@ impl<'a> PrettyPrinter<'a> {
                     FlowItem::tight(self.arena.text("."))
                 } else if let Some(expr) = child.cast() {
                     // target, field
-                    FlowItem::tight(self.convert_expr(ctx, expr))
+                    FlowItem::tight(self.convert_field_target(ctx, expr))
                 } else {
                     FlowItem::none()
                 }
